@@ -104,7 +104,7 @@ class Gate:
             elif kind == "P":
                 c.state, c.frame = "park", ev
 
-    def settle(self, timeout=20.0):
+    def settle(self, timeout=60.0):
         """Read frames until every live process is blocked in W or P (or gone) and nobody is still to connect."""
         deadline = time.time() + timeout
         while self.expected or any(c.state == "run" for c in self.conns):
